@@ -120,7 +120,9 @@ class ParticleReleaser(Iterator[pd.DataFrame]):
         if warm_start_file:
             # Get particle data from  warm start file
             with Dataset(warm_start_file) as f:
-                warm_particle_count = np.max(f.variables["pid"][:]) + 1
+                # A file whose records are all empty holds no pid at all
+                pid = f.variables["pid"][:]
+                warm_particle_count = np.max(pid) + 1 if len(pid) else 0
             logger.info("  warm_particle_count: %d", warm_particle_count)
         #         for name in config["particle_variables"]:
         #             pvars[name] = f.variables[name][:warm_particle_count]
